@@ -103,6 +103,8 @@ type vCluster struct {
 	fetches    int
 	violations []string
 	sent       []vSentBatch
+	holdFirst  bool          // withhold the answer to the first produce request ...
+	release    chan struct{} // ... until the driver has submitted everything
 	inFlightOnWire int
 	maxOnWire  int
 }
@@ -293,6 +295,9 @@ func (cl *vCluster) produce(b *Broker, req *ProduceRequest) (*ProduceResponse, e
 		}
 	}
 	cl.requests = append(cl.requests, rec)
+	if cl.holdFirst && len(cl.requests) == 1 {
+		<-cl.release // a slow broker: the application keeps submitting meanwhile
+	}
 	vYield() // response latency: other goroutines may run between append and acknowledgement
 	cl.inFlightOnWire--
 	if kind == vfConnAfter {
